@@ -1000,7 +1000,8 @@ async fn run_group(cfg: GroupCfg, scens: Vec<Scen>, server_rt: &tokio::runtime::
             o.count("note.drain-did-not-return");
         }
         if unknown > 0 {
-            o.oracle_fail("lifecycle.handshake_failure.hooks_fired", &format!("{unknown} user callback invocation(s) for a peer that is not an accepted connection of the group (failed handshakes: {})", scens.iter().filter(|s| s.hsfail()).count()), &replay);
+            let nfail = scens.iter().filter(|s| s.hsfail()).count();
+            o.oracle_fail(if nfail > 0 { "lifecycle.handshake_failure.hooks_fired" } else { "lifecycle.callbacks.unattributed" }, &format!("{unknown} user callback invocation(s) for a peer that is not an accepted connection of the group (failed handshakes: {})", scens.iter().filter(|s| s.hsfail()).count()), &replay);
         }
         for ((sc, res), (rec, line)) in scens.iter().zip(&results).zip(recs.iter().zip(&lines)) {
             let trace = rec.trace.lock().unwrap().clone();
@@ -1210,6 +1211,11 @@ fn main() {
                 o.count(&format!("group.size.{}", p.scens.len()));
             }
             run_group(p.cfg, p.scens, &server_rt, &out, settle).await;
+            // a failing input has been found and recorded with its replay: no need to wait out the watchdogs
+            // of every later group
+            if out.lock().unwrap().oracle_failures > 0 {
+                stop.store(true, Ordering::SeqCst);
+            }
         }
     });
     let mut out = out.into_inner().unwrap();
